@@ -190,6 +190,11 @@ package aclfilter
 //@ requires[csn-ptr-non-nil] is[*structs.CheckServiceNodes](subject) ==> as[*structs.CheckServiceNodes](subject) != nil
 //@ requires[topology-non-nil] is[*structs.IndexedServiceTopology](subject) ==> as[*structs.IndexedServiceTopology](subject).ServiceTopology != nil
 //@ requires[nwg-non-nil] is[*structs.IndexedNodesWithGateways](subject) ==> forall j int :: 0 <= j && j < len(as[*structs.IndexedNodesWithGateways](subject).Gateways) ==> as[*structs.IndexedNodesWithGateways](subject).Gateways[j] != nil
+//@ requires[dump-well-formed] is[*structs.IndexedNodeDump](subject) ==> (forall j int :: 0 <= j && j < len(as[*structs.IndexedNodeDump](subject).Dump) ==> as[*structs.IndexedNodeDump](subject).Dump[j] != nil) && (forall a int, b int :: 0 <= a && a < b && b < len(as[*structs.IndexedNodeDump](subject).Dump) ==> as[*structs.IndexedNodeDump](subject).Dump[a] != as[*structs.IndexedNodeDump](subject).Dump[b]) && (forall j int, k int :: 0 <= j && j < len(as[*structs.IndexedNodeDump](subject).Dump) && 0 <= k ==> (k < len(as[*structs.IndexedNodeDump](subject).Dump[j].Services) ==> as[*structs.IndexedNodeDump](subject).Dump[j].Services[k] != nil) && (k < len(as[*structs.IndexedNodeDump](subject).Dump[j].Checks) ==> as[*structs.IndexedNodeDump](subject).Dump[j].Checks[k] != nil))
+//@ requires[imported-dump-well-formed] is[*structs.IndexedNodeDump](subject) ==> (forall j int :: 0 <= j && j < len(as[*structs.IndexedNodeDump](subject).ImportedDump) ==> as[*structs.IndexedNodeDump](subject).ImportedDump[j] != nil) && (forall a int, b int :: 0 <= a && a < b && b < len(as[*structs.IndexedNodeDump](subject).ImportedDump) ==> as[*structs.IndexedNodeDump](subject).ImportedDump[a] != as[*structs.IndexedNodeDump](subject).ImportedDump[b]) && (forall j int, k int :: 0 <= j && j < len(as[*structs.IndexedNodeDump](subject).ImportedDump) && 0 <= k ==> (k < len(as[*structs.IndexedNodeDump](subject).ImportedDump[j].Services) ==> as[*structs.IndexedNodeDump](subject).ImportedDump[j].Services[k] != nil) && (k < len(as[*structs.IndexedNodeDump](subject).ImportedDump[j].Checks) ==> as[*structs.IndexedNodeDump](subject).ImportedDump[j].Checks[k] != nil))
+//@ requires[dumps-disjoint] is[*structs.IndexedNodeDump](subject) ==> forall a int, b int :: 0 <= a && a < len(as[*structs.IndexedNodeDump](subject).Dump) && 0 <= b && b < len(as[*structs.IndexedNodeDump](subject).ImportedDump) ==> as[*structs.IndexedNodeDump](subject).Dump[a] != as[*structs.IndexedNodeDump](subject).ImportedDump[b]
+//@ requires[node-service-list-non-nil] is[*structs.IndexedNodeServiceList](subject) ==> forall k int :: 0 <= k && k < len(as[*structs.IndexedNodeServiceList](subject).NodeServices.Services) ==> as[*structs.IndexedNodeServiceList](subject).NodeServices.Services[k] != nil
+//@ requires[services-map-made] is[*structs.IndexedServices](subject) ==> as[*structs.IndexedServices](subject).Services != nil
 //@ requires[gws-non-nil] is[*structs.IndexedGatewayServices](subject) ==> forall j int :: 0 <= j && j < len(as[*structs.IndexedGatewayServices](subject).Services) ==> as[*structs.IndexedGatewayServices](subject).Services[j] != nil
 //@ ensures[sessions-flag] is[*structs.IndexedSessions](subject) ==> (as[*structs.IndexedSessions](subject).ResultsFilteredByACLs <==> len(as[*structs.IndexedSessions](subject).Sessions) < len(old(as[*structs.IndexedSessions](subject).Sessions)))
 //@ ensures[nodes-flag] is[*structs.IndexedNodes](subject) ==> (as[*structs.IndexedNodes](subject).ResultsFilteredByACLs <==> len(as[*structs.IndexedNodes](subject).Nodes) < len(old(as[*structs.IndexedNodes](subject).Nodes)))
@@ -200,6 +205,7 @@ package aclfilter
 //@ ensures[intentions-flag] is[*structs.IndexedIntentions](subject) ==> (as[*structs.IndexedIntentions](subject).ResultsFilteredByACLs <==> len(as[*structs.IndexedIntentions](subject).Intentions) < len(old(as[*structs.IndexedIntentions](subject).Intentions)))
 //@ ensures[service-list-flag] is[*structs.IndexedServiceList](subject) ==> (as[*structs.IndexedServiceList](subject).ResultsFilteredByACLs <==> len(as[*structs.IndexedServiceList](subject).Services) < len(old(as[*structs.IndexedServiceList](subject).Services)))
 //@ ensures[gateway-services-flag] is[*structs.IndexedGatewayServices](subject) ==> (as[*structs.IndexedGatewayServices](subject).ResultsFilteredByACLs <==> len(as[*structs.IndexedGatewayServices](subject).Services) < len(old(as[*structs.IndexedGatewayServices](subject).Services)))
+//@ ensures[node-dump-flag] is[*structs.IndexedNodeDump](subject) && !old(as[*structs.IndexedNodeDump](subject).ResultsFilteredByACLs) ==> (as[*structs.IndexedNodeDump](subject).ResultsFilteredByACLs <==> (len(as[*structs.IndexedNodeDump](subject).Dump) < len(old(as[*structs.IndexedNodeDump](subject).Dump)) || len(as[*structs.IndexedNodeDump](subject).ImportedDump) < len(old(as[*structs.IndexedNodeDump](subject).ImportedDump)) || (exists j int :: 0 <= j && j < len(as[*structs.IndexedNodeDump](subject).Dump) && dumpNodeShrunk(as[*structs.IndexedNodeDump](subject).Dump[j])) || (exists j int :: 0 <= j && j < len(as[*structs.IndexedNodeDump](subject).ImportedDump) && dumpNodeShrunk(as[*structs.IndexedNodeDump](subject).ImportedDump[j]))))
 //@ ensures[exported-services-flag] is[*structs.IndexedExportedServiceList](subject) ==> (as[*structs.IndexedExportedServiceList](subject).ResultsFilteredByACLs <==> (old(as[*structs.IndexedExportedServiceList](subject).ResultsFilteredByACLs) || exists p string :: old(has(as[*structs.IndexedExportedServiceList](subject).Services, p)) && len(as[*structs.IndexedExportedServiceList](subject).Services[p]) < len(old(as[*structs.IndexedExportedServiceList](subject).Services[p]))))
 //@ loop 1 invariant[flag-so-far] v.ResultsFilteredByACLs <==> (old(as[*structs.IndexedExportedServiceList](subject).ResultsFilteredByACLs) || exists p string :: range1_visited[p] && old(has(v.Services, p)) && len(v.Services[p]) < len(old(v.Services[p])))
 //@ loop 1 invariant[unvisited-untouched] forall p string :: !range1_visited[p] ==> (has(v.Services, p) <==> old(has(v.Services, p))) && eq(v.Services[p], old(v.Services[p]))
@@ -238,6 +244,7 @@ package aclfilter
 //@ ensures[checks-readable] forall j int, k int :: 0 <= j && j < len(*dump) && 0 <= k && k < len((*dump)[j].Checks) ==> maySeeDumpCheck(f, (*dump)[j], (*dump)[j].Checks[k])
 //@ ensures[only-input-nodes] forall j int :: 0 <= j && j < len(*dump) ==> exists o int :: 0 <= o && o < len(old(*dump)) && (*dump)[j] == old(*dump)[o]
 //@ ensures[flag-iff-something-removed] removed <==> (len(*dump) < len(old(*dump)) || exists j int :: 0 <= j && j < len(*dump) && dumpNodeShrunk((*dump)[j]))
+//@ ensures[other-nodes-untouched] forall r *structs.NodeInfo :: (forall o int :: 0 <= o && o < len(old(*dump)) ==> old(*dump)[o] != r) ==> eq(r.Services, old(r.Services)) && eq(r.Checks, old(r.Checks))
 //@ loop 1 invariant[bounds] 0 <= i && i <= len(nd) && len(nd) <= len(old(*dump))
 //@ loop 1 invariant[tail-is-input-tail] forall j int :: i <= j && j < len(nd) ==> nd[j] == old(*dump)[j + len(old(*dump)) - len(nd)]
 //@ loop 1 invariant[kept-from-input] forall j int :: 0 <= j && j < i ==> exists o int :: 0 <= o && o < i + len(old(*dump)) - len(nd) && nd[j] == old(*dump)[o]
@@ -246,9 +253,45 @@ package aclfilter
 //@ loop 1 invariant[processed-checks-readable] forall j int, k int :: 0 <= j && j < i && 0 <= k && k < len(nd[j].Checks) ==> maySeeDumpCheck(f, nd[j], nd[j].Checks[k])
 //@ loop 1 invariant[unprocessed-untouched] forall o int :: i + len(old(*dump)) - len(nd) <= o && o < len(old(*dump)) ==> eq(old(*dump)[o].Services, old(old(*dump)[o].Services)) && eq(old(*dump)[o].Checks, old(old(*dump)[o].Checks))
 //@ loop 1 invariant[flag] removed <==> (len(nd) < len(old(*dump)) || exists j int :: 0 <= j && j < i && dumpNodeShrunk(nd[j]))
+//@ loop 1 invariant[other-nodes-untouched] forall r *structs.NodeInfo :: (forall o int :: 0 <= o && o < len(old(*dump)) ==> old(*dump)[o] != r) ==> eq(r.Services, old(r.Services)) && eq(r.Checks, old(r.Checks))
 //@ loop 2 invariant[bounds] 0 <= j && j <= len(info.Services) && len(info.Services) <= len(old(info.Services))
 //@ loop 2 invariant[kept-readable] forall k int :: 0 <= k && k < j ==> maySeeDumpService(f, info, info.Services[k])
 //@ loop 2 invariant[flag] removed <==> (len(nd) < len(old(*dump)) || (exists q int :: 0 <= q && q < i && dumpNodeShrunk(nd[q])) || len(info.Services) < len(old(info.Services)))
 //@ loop 3 invariant[bounds] 0 <= j && j <= len(info.Checks) && len(info.Checks) <= len(old(info.Checks))
 //@ loop 3 invariant[kept-readable] forall k int :: 0 <= k && k < j ==> maySeeDumpCheck(f, info, info.Checks[k])
 //@ loop 3 invariant[flag] removed <==> (len(nd) < len(old(*dump)) || (exists q int :: 0 <= q && q < i && dumpNodeShrunk(nd[q])) || len(info.Services) < len(old(info.Services)) || len(info.Checks) < len(old(info.Checks)))
+
+//@ func Filter.filterServiceTopology
+//@ props C09
+//@ results removed
+//@ requires f != nil && topology != nil
+//@ ensures[flag-iff-either-list-shrank] removed <==> (len(topology.Upstreams) < len(old(topology.Upstreams)) || len(topology.Downstreams) < len(old(topology.Downstreams)))
+//@ ensures[upstreams-readable] forall j int :: 0 <= j && j < len(topology.Upstreams) ==> maySee_filterCheckServiceNodes(f, topology.Upstreams[j])
+//@ ensures[downstreams-readable] forall j int :: 0 <= j && j < len(topology.Downstreams) ==> maySee_filterCheckServiceNodes(f, topology.Downstreams[j])
+
+// map of service name -> tags
+//@ func Filter.filterServices
+//@ props C09
+//@ results removed
+//@ requires f != nil && entMeta != nil && services != nil
+//@ ensures[nothing-unreadable-returned] forall svc string :: has(services, svc) ==> f.allowService(svc, &acl.AuthorizerContext{})
+//@ ensures[nothing-readable-dropped] forall svc string :: old(has(services, svc)) && f.allowService(svc, &acl.AuthorizerContext{}) ==> has(services, svc)
+//@ ensures[no-new-entries] forall svc string :: has(services, svc) ==> old(has(services, svc))
+//@ ensures[flag-iff-removed] removed <==> exists svc string :: old(has(services, svc)) && !has(services, svc)
+//@ loop 1 invariant[visited-decided] forall svc string :: range1_visited[svc] ==> (has(services, svc) <==> (old(has(services, svc)) && f.allowService(svc, &acl.AuthorizerContext{})))
+//@ loop 1 invariant[unvisited-untouched] forall svc string :: !range1_visited[svc] ==> (has(services, svc) <==> old(has(services, svc)))
+//@ loop 1 invariant[flag] removed <==> exists svc string :: range1_visited[svc] && old(has(services, svc)) && !has(services, svc)
+
+// services of one node (list form)
+//@ func Filter.filterNodeServiceList
+//@ props C09
+//@ results removed
+//@ requires f != nil && services != nil
+//@ requires[members-non-nil] forall k int :: 0 <= k && k < len(services.Services) ==> services.Services[k] != nil
+//@ ensures[unreadable-node-emptied] old(services.Node) != nil && !f.allowNode(old(services.Node.Node), &acl.AuthorizerContext{Peer: old(services.Node.PeerName)}) ==> removed && services.Node == nil && len(services.Services) == 0
+//@ ensures[services-readable] old(services.Node) != nil ==> forall k int :: 0 <= k && k < len(services.Services) ==> f.allowService(services.Services[k].Service, &acl.AuthorizerContext{Peer: services.Services[k].PeerName})
+//@ ensures[flag-iff-removed] old(services.Node) != nil && f.allowNode(old(services.Node.Node), &acl.AuthorizerContext{Peer: old(services.Node.PeerName)}) ==> (removed <==> len(services.Services) < len(old(services.Services)))
+//@ ensures[no-node-nothing-filtered] old(services.Node) == nil ==> !removed
+//@ loop 1 invariant[bounds] 0 <= i && i <= len(svcs) && len(svcs) <= len(old(services.Services))
+//@ loop 1 invariant[kept-readable] forall k int :: 0 <= k && k < i ==> f.allowService(svcs[k].Service, &acl.AuthorizerContext{Peer: svcs[k].PeerName})
+//@ loop 1 invariant[flag] removed <==> len(svcs) < len(old(services.Services))
